@@ -2107,11 +2107,14 @@ func (t *tScreen) HasKey(k Key) bool {
 
 func (t *tScreen) SetSize(w, h int) {
 	t.Lock()
-	if t.setWinSize != "" {
-		t.TPuts(t.ti.TParm(t.setWinSize, w, h))
+	// (not while suspended or finalized: the terminal is not ours then)
+	if t.running && !t.fini {
+		if t.setWinSize != "" {
+			t.TPuts(t.ti.TParm(t.setWinSize, w, h))
+		}
+		t.cells.Invalidate()
+		t.resize()
 	}
-	t.cells.Invalidate()
-	t.resize()
 	t.Unlock()
 }
 
